@@ -80,9 +80,23 @@ def same(a, b, rtol=0.0):
     return a == b
 
 
+def _int_rows(mab, c):
+    """integral contexts as integer-typed rows when the scenario asks for it"""
+    if c is None or not getattr(mab, "_verif_int_ctx", False):
+        return c
+    try:
+        if all(float(v) == int(v) for row in c for v in row):
+            return [[int(v) for v in row] for row in c]
+    except (TypeError, ValueError, OverflowError):
+        pass
+    return c
+
+
 def apply_op(mab, op):
     """apply one scenario op to a real bandit; returns a canonical outcome"""
     kind = op["op"]
+    if kind in ("fit", "pfit", "pexp", "pred") and op.get("c") is not None and op.get("ctypeok", True):
+        op = dict(op, c=_int_rows(mab, op["c"]))
     try:
         if kind in ("fit", "pfit"):
             d = list(op["d"]) if op.get("typeok", True) else tuple(op["d"])
